@@ -252,6 +252,9 @@ RAISING = [
     ('script-raises-after-pkg_config', lambda s: s + "executable('late', ['extra.c'])\nraise ValueError('x')\n"),
     ('script-exits-nonzero', lambda s: s + "import sys\nsys.exit(3)\n"),
     ('script-syntax-error', lambda s: s + "def (:\n"),
+    # the error happens while an immediate (.pc) file of the regeneration step is being written
+    ('pkg_config-writer-raises', lambda s: s.replace("pkg_config('p', version='1.0')",
+                                                     "pkg_config('p', version='2.0', lang='fortran')")),
     # Python's usual "print a message and exit with status 1"
     ('script-exits-with-message', lambda s: s + "import sys\nsys.exit('fatal: cannot configure this')\n"),
     ('script-exits-with-message-early', lambda s: s.replace("prog = ", "exit('fatal: early')\nprog = ")),
